@@ -235,6 +235,9 @@ where
                             &pipeline,
                         ).await;
 
+                        #[cfg(p2panda_p2panda_verif)]
+                        p2panda_core::verif::crash_point("stream.after_pipeline");
+
                         // Inform publisher optionally about result of processor and that we're
                         // done here.
                         let _ = processed_tx.send(event.clone());
